@@ -47,6 +47,25 @@ def vectors(ctx, states):
                       ("adsb.airborne_position_with_ref" if kind == "air" else "adsb.surface_position_with_ref"))
                 V.append({"fn": fn, "frame": f, "r": r, "s": s, "ht": 1, "truth": [a, o], "kind": kind,
                           "case": [kind, parity, a, o, off[0], off[1]]})
+            # references that are NOT on the grid: the zone boundaries themselves (k * 90 / ni or k * 360 / ni degrees, and the same
+            # in latitude with 60 / 59 zones - what a reference taken from an earlier decoded position with a zero CPR field looks
+            # like) and whole degrees, as the nearest floats.  The spec brackets such a reference by its two grid neighbours
+            if (k + len(V)) % (3 if ctx.quick else 2) == 0:
+                span = 360 if kind == "air" else 90
+                lat_d, lon_d = a * 360.0 / (1 << 24), o * 360.0 / (1 << 24)
+                nz, ni = 60 - parity, max(e["ni"], 1)
+                kr, ks = round(lat_d * nz / span), round(lon_d * ni / span)
+                cands = []
+                if abs(lat_d * nz / span - kr) < 0.45 and abs(lon_d * ni / span - ks) < 0.45:
+                    cands += [(span * kr, nz, span * ks, ni), (span * kr, nz, round(lon_d), 1), (round(lat_d), 1, span * ks, ni)]
+                if abs(lon_d - round(lon_d)) < 0.45 * span / ni:
+                    cands.append((round(lat_d), 1, round(lon_d), 1))
+                    cands.append((round(lat_d * 2), 2, round(lon_d) * 5 // 5, 1))
+                for (rn, rd, sn, sd) in cands:
+                    if abs(rn) > 90 * rd or abs(rn / rd - lat_d) > 0.45 * span / nz or abs(sn) * 131072 > 2000000000:
+                        continue
+                    V.append({"fn": "adsb.position_with_ref.frac", "frame": f, "rn": rn, "rd": rd, "sn": sn, "sd": sd, "kind": kind,
+                              "via": (k + rn) % 2, "ht": 1, "truth": [a, o], "case": [kind, parity, a, o, "frac", rn, rd, sn, sd]})
     # dispatcher guard cells
     for tc in range(32):
         f = gen.set_bits(gen.rand_frame_df(rng, 17), 33, 37, tc)
